@@ -162,7 +162,7 @@ def check_tree(res, label, tree):
         _, msg2, _ = roundtrip(D.render(small)[0], quote)
         other = '"' if quote == "'" else "'"
         qn = "any" if roundtrip(D.render(small)[0], other)[0] == cat else quote
-        sig = "%s|quote=%s|%s" % (cat, qn, P.sig_doc(label, small))
+        sig = "%s|quote=%s|%s" % (cat, qn, P.oneline(small))
         R.add_violation(res, sig, "loads(dumps(loads(t))) differs from loads(t): " + (msg2 or msg or ""),
                         {"tree": D.describe(small), "quote": quote}, {"label": label, "message": msg2 or msg})
 
